@@ -42,5 +42,6 @@ Deliverables, written to {out}/1/ and {out}/2/ (create the directories):
    demo.py      - the demonstration program
    meta.json    - {{"property": "{pid}", "summary": "...what was changed...", "needs": "...what it needs in order to
                    manifest...", "tests_run": "...the pytest command(s) you ran and the pass/fail counts before/after..."}}
+NEVER use `git stash` (the stash is shared between worktrees of other people working in parallel); save diffs to files instead.
 Between the two changes reset the worktree (`git -C {wt} checkout -- .`). When finished leave the worktree clean.
 Do not spend effort on anything else; reply with a 5-line summary of the two changes.""")
